@@ -24,7 +24,14 @@ def tracing_any(M, ctx, *a):
 def flagset_bits(M, v):
     v = M.rdd(v) if isinstance(v, (Ref, BoxV)) else v
     if isinstance(v, Adt) and v.name == 'FlagSet': return v.fields[0]
-    if isinstance(v, Adt): return M.prog.discr_value(v)
+    if isinstance(v, Adt):
+        r = M.prog.impl_index.get(('FlagSet', 'From', 'from'))
+        if r:
+            for name in r:
+                fn = M.prog.fns[name]
+                if v.name in fn.sig:
+                    return M.run_fn(name, [v]).fields[0]
+        return M.prog.discr_value(v)
     if isinstance(v, int) or is_sym(v): return v
     raise EncoderGap('flagset bits of ' + repr(v))
 
@@ -56,7 +63,7 @@ def _fs_binop(op):
     def f(M, ctx, a, b):
         st = type_head(ctx.self_ty or '')
         x = M.rdd(a) if isinstance(a, (Ref, BoxV)) else a
-        if isinstance(x, Adt) and (x.name == 'FlagSet' or st == 'FlagSet' or x.name in M.prog.enum_discr):
+        if isinstance(x, Adt) and (x.name == 'FlagSet' or st == 'FlagSet' or x.name in M.prog.enum_discr or x.name in getattr(M.prog, 'flag_bits', {})):
             return Adt('FlagSet', 0, [M.binop_t(op, flagset_bits(M, a), flagset_bits(M, b), 'u8')])
         if isinstance(x, (int, bool)) or is_sym(x):
             return M.binop_t(op, x, b, st)
